@@ -210,6 +210,8 @@ class SimplicialComplex:
         # check the name and the basis before creating anything
         if id is not None and self.containsSimplex(id):
             raise KeyError(f'Duplicate simplex {id}')
+        if id is not None and k > 0 and id in bs:
+            raise KeyError(f'Simplex {id} cannot be a member of its own basis')
         for b in bs:
             if b in self and self.orderOf(b) != 0:
                 raise ValueError(f'Higher-order simplex {b} in basis set')
